@@ -89,4 +89,12 @@ def progStep (sk : Skel) (w : WrapSkel) (p : Prog) : Step Obs := fun c =>
   let r := runProgs sk w [p] { stack := c.stack, tp := c.tp, flatten := c.flatten, disable := false }
   (Cells.ofTState r.1, r.2)
 
+/-- the process-wide mutable state of the package outside `_storage.py`, as it is today: construction-time caches
+    of annotation classes, the constant dtype-name tables, the typechecker table of the import hook, two write-once flags -/
+def knownGlobalState : List String :=
+  ["__init__.py:__getattr__:cache", "_array_types.py:_array_name_format:global", "_array_types.py:_make_array_cached:cache",
+   "_array_types.py:_union_types:module", "_array_types.py:bools:module", "_array_types.py:complexes:module",
+   "_array_types.py:float8:module", "_array_types.py:ints:module", "_array_types.py:uints:module",
+   "_decorator.py:_tb_flag:global", "_import_hook.py:Typechecker.lookup:class", "_pytree_type.py:__getitem__:cache"]
+
 end JV
